@@ -369,7 +369,7 @@ impl Property for P {
     }
     fn rule(&self) -> String {
         "Generated: a matched baseline session (48 suites x 4 modes) plus exactly one perturbation of the receiver: info/psk/psk_id {flip bit k, append/prepend 0x00, drop last, swap two bytes, empty<->non-empty}, boundary shifts of 1..3 bytes between info|psk_id and psk|psk_id, psk<->psk_id swapped, mode swapped with identical data (incl. Base<->Psk(empty bundle), Auth<->AuthPsk(empty bundle)), KDF swapped, AEAD swapped (incl. AES-256-GCM<->ChaCha20Poly1305 and sealing<->export-only), recipient key with a different public key, another valid enc, same-DH/different-bytes enc (NIST y->p-y, X25519 bit 255), different expected sender key. \
-         Swept: every bit of info/psk/psk_id (<=24-byte strings) in Psk mode per KEM; all KDF x AEAD swaps per KEM; all 12 mode swaps per KEM; same-DH enc for every KEM x mode. \
+         Swept: every bit of info/psk/psk_id (<=24-byte strings) in Psk mode per KEM; all KDF x AEAD swaps per KEM; all 12 mode swaps per KEM; same-DH enc for every KEM x mode; every length 1..=1500 (every 5th up to 2600) of info, psk and psk_id with the receiver's copy differing only at its end (last bit, one byte fewer, one zero byte more). \
          Oracle: the perturbed receiver fails setup, or opens none of 3 sender ciphertexts (tried at position 0 and at the matching position) and every one of 3 exports (L>=16) differs; positive control first. \
          Non-trivial: minimal perturbations (single bit/byte, boundary shift, field swap, mode swap, same-DH enc, equal-size AEAD swap)."
             .into()
@@ -452,7 +452,29 @@ impl Property for P {
                 samedh.push(Case { sess: gen::cell_session(s, m, 11), pert: Pert::RecipientKey });
             }
         }
+        // every length 1..=1500 (then every 5th up to 2600) of info, psk and psk_id, the receiver's copy
+        // differing at the very end (last bit / one byte fewer / one zero byte more): a key schedule
+        // that silently hashes only a prefix of a long input makes the two sides agree
+        let mut tails = Vec::new();
+        for l in (1..=1500usize).chain((1505..=2600).step_by(5)) {
+            let s = Suite { kem: KemId::X25519, kdf: KdfId::ALL[l % 3], aead: if l % 7 == 0 { AeadId::Export } else { AeadId::ChaCha } };
+            let bp = match l % 3 {
+                0 => BytePert::AppendZero,
+                1 => BytePert::FlipBit(65535),
+                _ => BytePert::DropLast,
+            };
+            let mut a = gen::cell_session(s, (l % 4) as u8, 12);
+            a.info = Bytes(gen::fill(l, 5, 120 + l as u64));
+            tails.push(Case { sess: a, pert: Pert::Info(bp.clone()) });
+            let mut b = gen::cell_session(s, 1 + 2 * (l % 2) as u8, 13);
+            b.psk = Bytes(gen::fill(l, 5, 130 + l as u64));
+            tails.push(Case { sess: b, pert: Pert::Psk(bp.clone()) });
+            let mut c = gen::cell_session(s, 1 + 2 * ((l + 1) % 2) as u8, 14);
+            c.psk_id = Bytes(gen::fill(l, 5, 140 + l as u64));
+            tails.push(Case { sess: c, pert: Pert::PskId(bp) });
+        }
         vec![
+            ("every_length_of_info_psk_pskid_with_a_difference_at_the_end".into(), tails),
             ("every_bit_of_info_psk_pskid".into(), bits),
             ("kdf_and_aead_swaps".into(), swaps),
             ("mode_swaps_identical_data".into(), modes),
